@@ -47,10 +47,12 @@ fn module(ctx: Arc<Ctx>) -> RpcModule<Arc<Ctx>> {
 
 enum Live {
 	Http { io: tokio::io::DuplexStream, gate: Option<oneshot::Sender<()>>, _conn: tokio::task::JoinHandle<()> },
-	Ws { peer: WsPeer, closed: std::pin::Pin<Box<dyn std::future::Future<Output = ()> + Send + Sync>> },
+	Ws { peer: WsPeer, closed: std::pin::Pin<Box<dyn std::future::Future<Output = ()> + Send + Sync>>, reader: Option<tokio::task::JoinHandle<()>> },
 }
 
 struct World {
+	/// WebSocket pings enabled (cases that end a session by going silent)
+	use_ping: bool,
 	rig: Rig,
 	ctx: Arc<Ctx>,
 	started_rx: mpsc::UnboundedReceiver<u64>,
@@ -59,13 +61,13 @@ struct World {
 }
 
 impl World {
-	fn new(limit: u32) -> World {
+	fn new(limit: u32, use_ping: bool) -> World {
 		let ctx = Arc::new(Ctx::default());
 		let (stx, started_rx) = mpsc::unbounded_channel();
 		*ctx.started.lock() = Some(stx);
 		let methods: jsonrpsee_server::Methods = module(ctx.clone()).into();
-		let rig = Rig::with_methods(RigCfg { max_conns: limit, ..Default::default() }, Default::default(), methods);
-		World { rig, ctx, started_rx, live: HashMap::new(), serial: 0 }
+		let rig = Rig::with_methods(RigCfg { max_conns: limit, ping_ms: if use_ping { Some((100, 300)) } else { None }, ..Default::default() }, Default::default(), methods);
+		World { use_ping, rig, ctx, started_rx, live: HashMap::new(), serial: 0 }
 	}
 
 	async fn free(&self) -> Option<usize> {
@@ -112,8 +114,28 @@ impl World {
 				let mut svc = self.rig.svc(stop.clone());
 				let closed: std::pin::Pin<Box<dyn std::future::Future<Output = ()> + Send + Sync>> = Box::pin(svc.on_session_closed());
 				match WsPeer::connect(svc, stop, handle, &[]).await {
-					Ok(peer) => {
-						self.live.insert(c, Live::Ws { peer, closed });
+					Ok(mut peer) => {
+						let mut reader = None;
+						if self.use_ping {
+							// a live peer answers the server's pings: soketto does that inside receive()
+							let (tx, rx) = (peer.tx, peer.rx);
+							let (dummy_tx, dummy_rx) = {
+								let (a, _b) = tokio::io::duplex(64);
+								let mut cl = soketto::handshake::Client::new(futures_util::io::BufReader::new(futures_util::io::BufWriter::new(tokio_util::compat::TokioAsyncReadCompatExt::compat(a))), "x", "/");
+								let _ = &mut cl;
+								cl.into_builder().finish()
+							};
+							let mut rx = rx;
+							reader = Some(tokio::spawn(async move {
+								let mut data = Vec::new();
+								while rx.receive(&mut data).await.is_ok() {
+									data.clear();
+								}
+							}));
+							peer = WsPeer { tx, rx: dummy_rx, stop: peer.stop, handle: peer.handle, conn: peer.conn };
+							drop(dummy_tx);
+						}
+						self.live.insert(c, Live::Ws { peer, closed, reader });
 						"ok".into()
 					}
 					Err(e) => e.replace("rejected:", ""),
@@ -144,8 +166,26 @@ impl World {
 							"ok".into()
 						}
 					}
-					Some(Live::Ws { peer, closed }) => {
+					Some(Live::Ws { peer, closed, reader }) => {
 						match how {
+							"inactive" => {
+								// a call is executing (its gate is never opened), then the peer goes silent: no more pongs.
+								// The server must close the session for inactivity and give the slot back.
+								let mut peer = peer;
+								self.serial += 1;
+								let tag = self.serial;
+								let (gtx, grx) = oneshot::channel::<()>();
+								self.ctx.gates.lock().insert(tag, grx);
+								let _ = peer.tx.send_text(format!(r#"{{"jsonrpc":"2.0","id":1,"method":"gated","params":[{tag}]}}"#)).await;
+								let _ = peer.tx.flush().await;
+								let _ = tokio::time::timeout(WAIT, self.started_rx.recv()).await;
+								if let Some(r) = reader {
+									r.abort();
+								}
+								let _ = tokio::time::timeout(WAIT, closed).await;
+								std::mem::forget(gtx); // the call never finishes
+								std::mem::forget(peer); // and the peer never closes its socket
+							}
 							"clientClose" => {
 								let mut peer = peer;
 								let _ = peer.tx.close().await;
@@ -208,7 +248,8 @@ pub fn replay(cases: &[Value], out: &mut Out) {
 async fn one_case(c: &Value, cycles: usize) -> Vec<(String, Value)> {
 	let limit = c["limit"].as_u64().unwrap() as u32;
 	let kinds: Vec<String> = c["kinds"].as_array().unwrap().iter().map(|k| k.as_str().unwrap().to_string()).collect();
-	let mut w = World::new(limit);
+	let use_ping = c["path"].as_array().unwrap().iter().any(|s| s["op"].get("how").map(|h| h == "inactive").unwrap_or(false));
+	let mut w = World::new(limit, use_ping);
 	let mut probs = vec![];
 	if limit > 0 {
 		// warm-up: a handler takes a clone of the guard out of the request extensions
